@@ -31,7 +31,10 @@ out = ['# Seeded defects and the checks that catch them', '',
 miss = []
 for sid, meta, res in rows:
     if res is None:
-        cell = 'not run'
+        # not re-run in this session: the outcome recorded in meta.json by the earlier run
+        cb, mb = meta.get('caught_by', []), meta.get('missed_by', [])
+        cell = ', '.join([f'**{p}: caught**' for p in cb] + [f'{p}: 0' for p in mb]) or 'not run'
+        if not cb: miss.append(sid)
     else:
         cell = ', '.join(f'**{p}: {v}**' if v else f'{p}: 0' for p, (v, n) in res.items())
         if not any(v for v, n in res.values()): miss.append(sid)
